@@ -1,6 +1,7 @@
 import Hgxv.Model.Wire
 import Hgxv.Model.C16
 import Hgxv.Model.C16Ext
+import Hgxv.Model.C16Deg
 /-! Line protocol for C16 (every line carries its whole input; the only state is the sampler-state record
 `C16.Sampler` used by `new` / `call...`: the other commands leave it alone).
 
@@ -12,6 +13,8 @@ import Hgxv.Model.C16Ext
   `match degSeq dimSeq fd fm picks`                        -> `cfg flag keys resid unused` | `none`
         `dimSeq` is a `;`-list of `size,count`
   `output cfg weights labels|-`                            -> `w,node,...;...` | `none`
+  `outd cfg quantiles labels|-`                            -> `w,node,...;...` | `none`   output stage on a chain state that may hold
+        hyperedges with fewer than two nodes (nan mean -> non-positive weight): `outputStageD`
   `trunc quantiles`                                        -> weights (`np.maximum(quantile, 1)`)
   `fromhyg labels edges burn thins quantiles`              -> `out|out|...` | `none`
   `fromhygQ labels edges burn thins quantiles`             -> `out|out|...` | `none`   labels are rationals `p/q` (any number:
@@ -138,6 +141,13 @@ def stateless (_ : Unit) : List String → Unit × String
     match natss? c, nats? w, labels? l with
     | some cfg, some ws, some labels =>
       match outputStage cfg ws labels with
+      | some o => ((), showOut o)
+      | none => ((), "none")
+    | _, _, _ => ((), "bad-op")
+  | ["outd", c, w, l] =>
+    match natss? c, nats? w, labels? l with
+    | some cfg, some qs, some labels =>
+      match outputStageD cfg qs labels with
       | some o => ((), showOut o)
       | none => ((), "none")
     | _, _, _ => ((), "bad-op")
